@@ -79,7 +79,12 @@ func DrawKnobs(r *Rng) Knobs {
 }
 
 var (
-	varNames   = []string{"a", "b", "c", "d", "x1", "y_2", "user.age", "is_ok", "_t", "Ünï", "v", "w.z", "locale", "n0", "fi", "variable", "operator", "DNE", "T", "nil", "True", "FALSE", "prix_à", "х", "你"}
+	varNames   = []string{"a", "b", "c", "d", "x1", "y_2", "user.age", "is_ok", "_t", "Ünï", "v", "w.z", "locale", "n0", "fi", "variable", "operator", "DNE", "T", "nil", "True", "FALSE", "prix_à", "х", "你", "version", "mod", "in"}
+
+	// opLikeVarNames: variable names that are also names of built-in operators. A
+	// REGISTERED variable may carry such a name (operator position and operand
+	// position do not clash); as an undefined-mode variable it may not.
+	opLikeVarNames = map[string]bool{"version": true, "mod": true, "in": true}
 	constNames = []string{"K0", "K1", "IOS", "Good", "k_2", "Const.X", "Größe", "格"}
 	opNames    = []string{"f0", "f1", "g2", "h3", "calc.it", "is_child", "fi", "AND", "Or", "Not", "IN", "größe", "検査", "F0", "calc_it", "calcit"}
 	intPool    = []int64{0, 1, -1, 2, 3, 5, 7, 10, 18, 100, -100, 9999, 10000, math.MaxInt64, math.MinInt64, 4000, 127, 128, 255, 256, 32767, 32768, -32768, math.MaxInt32, math.MinInt32}
@@ -120,6 +125,9 @@ func NewGen(r *Rng, k Knobs) *Gen {
 			vs.Reg = false
 		case 2:
 			vs.Reg = r.P(0.5)
+		}
+		if opLikeVarNames[vs.Name] {
+			vs.Reg = true
 		}
 		g.C.Vars = append(g.C.Vars, vs)
 		g.by[ty] = append(g.by[ty], vs.Name)
@@ -211,7 +219,9 @@ func NewGen(r *Rng, k Knobs) *Gen {
 	// RegVarAndOp or a direct map write): built-ins take precedence, so it must
 	// never run. It is not offered to the program generator as a user operator.
 	if r.P(0.1) {
-		g.C.Ops = append(g.C.Ops, OpSpec{Name: PickS(r, []string{"add", "+", "eq", "=", "and", "version", "not", "in", ">", "mod", "between"}), Kind: "pure", Ret: TInt, Arity: 2, Stateless: r.P(0.5)})
+		if hn := PickS(r, []string{"add", "+", "eq", "=", "and", "version", "not", "in", ">", "mod", "between"}); !varName[hn] {
+			g.C.Ops = append(g.C.Ops, OpSpec{Name: hn, Kind: "pure", Ret: TInt, Arity: 2, Stateless: r.P(0.5)})
+		}
 	}
 	if k.CountOp {
 		g.C.Ops = append(g.C.Ops, OpSpec{Name: "take_token", Kind: "count", Ret: TInt, Arity: r.Intn(2)})
